@@ -263,6 +263,11 @@ static Adj inout_observe_in(Gr& g, const Ctx& c, const NodeMap<Gr>& nm) {
         x.data = bytes_of<E>(g.getInEdgeData(e));
       in[u].push_back(x);
     }
+    {
+      auto adv = b;
+      adv += in[u].size();
+      CCHECK(adv == ee, "in-edge-iteration", "in_edge_begin(%u) + %zu is not in_edge_end(%u)", u, in[u].size(), u);
+    }
     CCHECK((size_t)std::distance(b, ee) == in[u].size(), "in-edge-iteration", "distance(in_edge_begin(%u), in_edge_end(%u)) = %lld, iteration visits %zu", u, u,
            (long long)std::distance(b, ee), in[u].size());
     if (u < 64 || u + 4 >= c.n) {
